@@ -258,7 +258,7 @@ def run(tier):
     for kinds, mx, gens, idents in ((["struct"], {"c": 2, "v": 0, "f": 1 if q else 2}, ["none"], ["a"]), (["struct"], {"c": 1, "v": 0, "f": 2}, ["none"], ["a"]),
                                     (["enum"], {"c": 1, "v": 2 if not q else 1, "f": 1}, ["none"], ["a"]), (["enum"], {"c": 2, "v": 1, "f": 0 if q else 1}, ["none"], ["a"]),
                                     (["enum"], {"c": 0, "v": 1, "f": 2}, ["none"], ["a"]),
-                                    (["struct", "enum"], {"c": 1, "v": 0 if q else 1, "f": 1}, allg, ["a"]),
+                                    (["struct", "enum"], {"c": 1, "v": 0, "f": 1}, allg, ["a"]),
                                     (["struct", "enum"], {"c": 1, "v": 0, "f": 1}, ["none", "type"], ids)):
         cfgp = os.path.join(vlib.TMP, "attrs-cfg.json")
         json.dump({"kinds": kinds, "palette": palettes(tier), "max": mx, "gens": gens, "idents": idents}, open(cfgp, "w"))
